@@ -487,13 +487,25 @@ Parser::Parser(File& file)
 
 bool Parser::get_line(std::string& line, NewLine* newline)
 {
-    if (!m_file.get_line(line, newline))
+    NewLine line_ending;
+    if (!m_file.get_line(line, &line_ending)) {
+        if (newline)
+            *newline = line_ending;
         return false;
+    }
 
     // The last line of a patch is as much of a line as any other if the newline at the end of the patch
     // went missing. Only a line which says so is to end without one.
-    if (newline && *newline == NewLine::None)
-        *newline = NewLine::LF;
+    if (line_ending == NewLine::None) {
+        line_ending = NewLine::LF;
+        // What is left of a CRLF is no part of what the line says.
+        if (!line.empty() && line.back() == '\r') {
+            line.pop_back();
+            line_ending = NewLine::CRLF;
+        }
+    }
+    if (newline)
+        *newline = line_ending;
     ++m_line_number;
     return true;
 }
